@@ -972,6 +972,9 @@ func init() {
 		fr.r.tracing = false
 		for p, mode := range fr.r.held {
 			if mode != 0 {
+				fr.r.facts["opA"] = op
+				fr.r.facts["opB"] = op
+				fr.r.facts["kind"] = "lock-held"
 				fr.r.violation("lock", "C11.nothing-held-at-return", "operation "+op+" returns while holding "+fr.r.nameOf(p))
 			}
 		}
